@@ -77,6 +77,9 @@ def exact_value(item, units):
 
 
 def run(ctx):
+    C.seam_check(ctx["report"], ctx["rundir"], "C09", wrappers=[],
+                 pairs=[("5! * -1 * -1 == 5!", "1"), ("(-1*3!)*(-1*4!) == 3!*4!", "1"), ("C(6,2) in {-1*C(6,4)*-1}", "1"), ("(5! * -1 * -1 < 5!) + (5! * -1 * -1 > 5!)", "0"),
+                        ("10!/7! == 6!", "1"), ("C(10,3) == C(10,7)", "1"), ("5! * -1 == -(5!)", "1"), ("5!/(-1) < 0", "1")])
     C.config_matrix(ctx["report"], ctx["rundir"], "C09", ["1 $ == 1 usd", "1 $ < 1 usd", "1 usd in {1 $}", "1 € == 1 eur", "1 £ >= 1 gbp", "1 eur < 1 gbp", "(1 eur == 1 eur) + (1 usd == 1 usd)", "1 dozen == 12", "3 rad > 2", "1 m == 100 cm", "1/2 < 0.5", "C(4,2) == 3!", "1 keur > 999 eur"])
     # comparisons reached through variables, arrays, comprehensions; lazy values that share ranges; aggregates over comparables
     C.seam_check(ctx["report"], ctx["rundir"], "C09",
